@@ -116,7 +116,7 @@ def batch_e2(max_n, lo, hi, seed):
 
 
 def conditions(tier, seed):
-    N = 5 if tier == 'quick' else 6
+    N = 5 if tier == 'quick' else 7
     return cards_conditions('c14_exact', 'c14', 'exact', indexed_shapes(N), 30 if tier == 'quick' else 90,
                             'core features == forced set (closed form)')
 
@@ -144,7 +144,7 @@ def info(tier):
                         'always-selected oracle: all relations on the root path have min == k; validated against z3 on every enumerated constraint-free instance',
                         'shapes enumerated (enumeration); cardinalities symbolic (E1); configurations by z3 (E2)'],
         'coverage': {'functions_encoded': ['FMCoreFeatures.execute/get_result', 'get_core_features', 'Relation.is_mandatory'],
-                     'bounds': {'shapes_E1': 'N<=%d' % (5 if tier == 'quick' else 6), 'shapes_E2': 'N<=%d' % (4 if tier == 'quick' else 5), 'constraints': 'one tree of depth<=1'},
+                     'bounds': {'shapes_E1': 'N<=%d' % (5 if tier == 'quick' else 7), 'shapes_E2': 'N<=%d' % (4 if tier == 'quick' else 5), 'constraints': 'one tree of depth<=1'},
                      'stubs': []},
     }
 
